@@ -4,6 +4,9 @@ import concurrent.futures as cf
 import hashlib
 import json
 import os
+import sys as _sys
+if hasattr(_sys, "set_int_max_str_digits"):
+    _sys.set_int_max_str_digits(0)   # the driver reads / writes ints of any size (it never runs the library)
 import re
 import shutil
 import subprocess
@@ -94,6 +97,16 @@ def regenerate():
     notes["fresh"] = translate_src.generate_fresh(REPO, os.path.join(COQ, "Gen", "SrcFresh.v"))
     import translate_lines
     notes["lines"] = translate_lines.generate(REPO, os.path.join(COQ, "Gen", "SrcLines.v"), os.path.join(HARNESS, "fallback"))
+    import translate_args
+    notes["args"] = translate_args.generate(REPO, os.path.join(COQ, "Gen", "SrcArgs.v"), os.path.join(HARNESS, "fallback"))
+    import translate_key
+    notes["key"] = translate_key.generate(REPO, os.path.join(COQ, "Gen", "SrcKey.v"), os.path.join(HARNESS, "fallback"))
+    import translate_norm
+    notes["normalize"] = translate_norm.generate(REPO, os.path.join(COQ, "Gen", "SrcNorm.v"), os.path.join(HARNESS, "fallback"))
+    import translate_header
+    notes["header"] = translate_header.generate(REPO, os.path.join(COQ, "Gen", "SrcHeader.v"), os.path.join(HARNESS, "fallback"))
+    import translate_deps
+    notes["deps"] = translate_deps.generate(REPO, os.path.join(COQ, "Gen", "SrcDeps.v"), os.path.join(HARNESS, "fallback"))
     return notes
 
 
